@@ -487,6 +487,10 @@ func (c *Cache) copyFile(file io.ReadSeeker, out OutputID, size int64) error {
 			var out2 OutputID
 			h.Sum(out2[:0])
 			if out == out2 {
+				// The output is being stored again: count that as a use,
+				// so that Trim does not remove a file that a new entry
+				// was pointed at moments ago.
+				c.used(name)
 				return nil
 			}
 		}
